@@ -40,7 +40,7 @@ fn case_strategy(with_ref: bool) -> BoxedStrategy<Case> {
     (
         prop::sample::select(ks),
         3usize..=10,
-        proptest::collection::vec(0u8..4, 100..400),
+        proptest::collection::vec(0u8..4, 300..800),
         any::<u16>(),
         any::<u16>(),
         proptest::collection::vec((any::<u16>(), proptest::collection::vec(0u8..4, 2..10)), 1..6),
